@@ -285,7 +285,7 @@ def run(rep: Report, rng, tier: str, known: dict, search: bool = False) -> None:
 def evidence(rep: Report) -> None:
     write_evidence(
         rep,
-        rule="cases = (expression, variable, route) with route in {Partial.as_expression, Derivative.as_expression, Differential(early).component.as_expression}; each output is compared with the model's tree and evaluated (value and one second-order partial) at 3 (quick) / 6 (thorough) grid points, judged where the original is defined; non-trivial = variable occurs and >= 3 nodes; distinct by (wire, variable, route)",
+        rule="cases = (expression, variable, route) with route in {Partial.as_expression, Derivative.as_expression, Differential(early).component.as_expression}; each output is compared with the model's tree and evaluated (value and one second-order partial) at 3 (quick) / 6 (thorough) grid points, judged where the original is defined; non-trivial = variable occurs and >= 3 nodes; distinct by (wire, variable, route); plus higher orders (the simplified derivative as input), and, when the implementation has rewrite rules the model does not know, shapes built from the constructor names and literals in those rules' source text",
         trusted=common.TRUSTED,
         assumptions=[common.ASSUME_RANGE,
                      "K1 (recorded finding): failures that disappear when the even/even instance of NthRoot(NthPower) rewriting is switched off are reported as KNOWN-FINDING, not as violations"],
